@@ -51,6 +51,9 @@ func program(c Case) (*gen.Program, string) {
 		return p, "func"
 	case "tails":
 		return gen.Tails(c.Kind, c.K), "tails:" + c.Kind
+	case "dce":
+		p := gen.Replay(c.Choices, gen.Dce)
+		return p.Prog, p.Placement
 	}
 	return nil, ""
 }
@@ -204,6 +207,7 @@ func main() {
 		{"cflow", Case{Family: "cflow", Budget: r.Pick(3, 4), Depth: 2, Rich: false}},
 		{"cflow-rich", Case{Family: "cflow", Budget: r.Pick(2, 3), Depth: 2, Rich: true}},
 		{"func", Case{Family: "func", Budget: r.Pick(2, 3)}},
+		{"dce", Case{Family: "dce"}},
 	}
 	for _, f := range fams {
 		f := f
@@ -238,6 +242,11 @@ func main() {
 			g := gen.Funcs(gen.FuncCfg{Budget: f.c.Budget})
 			gen.ParallelEnumerate(g, 3, func(p *gen.Program, ch []int) {
 				distinct.Add(tg.Print(p).AllText)
+				visit(ch)
+			})
+		case "dce":
+			gen.ParallelEnumerate(gen.Dce, 3, func(p gen.CflowProgram, ch []int) {
+				distinct.Add(tg.Print(p.Prog).AllText)
 				visit(ch)
 			})
 		}
